@@ -149,4 +149,136 @@ theorem reorgFold_good (rect : RI) (threshold fuel : Nat) (l : List (Item RI)) (
       exact ih (Node.insert threshold fuel s.1 c, s.2) a (by rw [b, hr])
     · exact ih (s.1, s.2 ++ [c]) hg hr
 
+/-- removal changes neither the shape nor any rectangle -/
+theorem remove_shape (id : Nat) (b : RI) (n n' : Node RI) (h : Node.remove id b n = some n') :
+    n'.rect = n.rect ∧ n'.depth = n.depth ∧ (Good n → Good n') := by
+  induction n generalizing n' with
+  | leaf r cs =>
+    simp only [Node.remove] at h
+    cases hs : Node.swapRemove cs id with
+    | none => rw [hs] at h; simp at h
+    | some cs' =>
+      rw [hs] at h; simp only [Option.map_some, Option.some.injEq] at h; subst h
+      exact ⟨rfl, rfl, fun _ => trivial⟩
+  | split r cs c0 c1 c2 c3 ih0 ih1 ih2 ih3 =>
+    simp only [Node.remove] at h
+    have co : ∀ c c' : Node RI, c'.rect = c.rect → c'.depth = c.depth → CO r c → CO r c' := by
+      intro c c' e1 e2 hc
+      exact ⟨fun he => by rw [e2]; exact hc.1 (by rw [← e1]; exact he), fun he => by rw [e1]; exact hc.2 (by rw [← e1]; exact he)⟩
+    cases hs : Node.swapRemove cs id with
+    | some cs' =>
+      rw [hs] at h; simp only [Option.some.injEq] at h; subst h
+      exact ⟨rfl, rfl, fun g => g⟩
+    | none =>
+      rw [hs] at h
+      simp only at h
+      split at h
+      · cases h0 : Node.remove id b c0 with
+        | some c0' =>
+          rw [h0] at h; simp only [Option.some.injEq] at h; subst h
+          obtain ⟨e1, e2, g⟩ := ih0 c0' h0
+          exact ⟨rfl, by simp only [Node.depth, e2], fun ⟨hne, a0, a1, a2, a3⟩ => ⟨hne, ⟨g a0.1, co _ _ e1 e2 a0.2⟩, a1, a2, a3⟩⟩
+        | none =>
+          rw [h0] at h; simp only at h
+          cases h1 : Node.remove id b c1 with
+          | some c1' =>
+            rw [h1] at h; simp only [Option.some.injEq] at h; subst h
+            obtain ⟨e1, e2, g⟩ := ih1 c1' h1
+            exact ⟨rfl, by simp only [Node.depth, e2], fun ⟨hne, a0, a1, a2, a3⟩ => ⟨hne, a0, ⟨g a1.1, co _ _ e1 e2 a1.2⟩, a2, a3⟩⟩
+          | none =>
+            rw [h1] at h; simp only at h
+            cases h2 : Node.remove id b c2 with
+            | some c2' =>
+              rw [h2] at h; simp only [Option.some.injEq] at h; subst h
+              obtain ⟨e1, e2, g⟩ := ih2 c2' h2
+              exact ⟨rfl, by simp only [Node.depth, e2], fun ⟨hne, a0, a1, a2, a3⟩ => ⟨hne, a0, a1, ⟨g a2.1, co _ _ e1 e2 a2.2⟩, a3⟩⟩
+            | none =>
+              rw [h2] at h; simp only at h
+              cases h3 : Node.remove id b c3 with
+              | some c3' =>
+                rw [h3] at h; simp only [Option.some.injEq] at h; subst h
+                obtain ⟨e1, e2, g⟩ := ih3 c3' h3
+                exact ⟨rfl, by simp only [Node.depth, e2], fun ⟨hne, a0, a1, a2, a3⟩ => ⟨hne, a0, a1, a2, ⟨g a3.1, co _ _ e1 e2 a3.2⟩⟩⟩
+              | none => rw [h3] at h; cases h
+      · cases h
+
+
+/-! ### the result of insertion does not depend on the fuel once it exceeds the measure -/
+
+/-- two inserters agree on every good non-empty node of measure below `m` -/
+def Agree (ins ins' : Node RI → Item RI → Node RI) (m : Nat) : Prop :=
+  ∀ c it, Good c → c.rect.empty = false → meas c.rect < m → ins c it = ins' c it
+
+theorem route_congr (ins ins' : Node RI → Item RI → Node RI) (n : Node RI) (it : Item RI) (hn : Good n)
+    (ha : Agree ins ins' (meas n.rect)) : Node.route ins n it = Node.route ins' n it := by
+  cases n with
+  | leaf r cs => rfl
+  | split r cs c0 c1 c2 c3 =>
+    obtain ⟨_, h0, h1, h2, h3⟩ := hn
+    have k : ∀ c : Node RI, Good c ∧ CO r c → c.rect.contains it.rect = true → ins c it = ins' c it := by
+      intro c hc hcon
+      have hne := contains_nonempty _ _ hcon
+      exact ha c it hc.1 hne (hc.2.2 hne)
+    simp only [Node.route]
+    split
+    · rename_i hc; rw [k c0 h0 hc]
+    · split
+      · rename_i hc; rw [k c1 h1 hc]
+      · split
+        · rename_i hc; rw [k c2 h2 hc]
+        · split
+          · rename_i hc; rw [k c3 h3 hc]
+          · rfl
+
+theorem fold_route_congr (ins ins' : Node RI → Item RI → Node RI) (hg : GoodIns ins) (cs : List (Item RI))
+    (acc : Node RI) (hacc : Good acc) (hr : acc.rect.empty = false) (ha : Agree ins ins' (meas acc.rect)) :
+    cs.foldl (fun a one => Node.route ins a one) acc = cs.foldl (fun a one => Node.route ins' a one) acc := by
+  induction cs generalizing acc with
+  | nil => rfl
+  | cons c cs ih =>
+    simp only [List.foldl_cons]
+    rw [← route_congr ins ins' acc c hacc ha]
+    obtain ⟨a, b⟩ := route_good ins hg acc c hacc hr
+    exact ih _ a (by rw [b]; exact hr) (by rw [b]; exact ha)
+
+/-- **fuel independence**: on a good non-empty integer node, any two fuels that are at least `W + H` of its rectangle
+    give the same result — the fuel-0 fallback is never reached, the fuelled recursion computes what the unbounded
+    Go recursion computes -/
+theorem insert_fuel_indep (threshold : Nat) (f f' : Nat) (n : Node RI) (it : Item RI) (hn : Good n)
+    (hr : n.rect.empty = false) (h1 : meas n.rect ≤ f) (h2 : meas n.rect ≤ f') :
+    Node.insert threshold f n it = Node.insert threshold f' n it := by
+  induction f generalizing f' n it with
+  | zero =>
+    have := nonempty_pos _ hr
+    unfold meas at h1; omega
+  | succ f ih =>
+    cases f' with
+    | zero =>
+      have := nonempty_pos _ hr
+      unfold meas at h2; omega
+    | succ f' =>
+      have hagree : Agree (Node.insert threshold f) (Node.insert threshold f') (meas n.rect) := by
+        intro c x hc hne hm
+        exact ih f' c x hc hne (by omega) (by omega)
+      simp only [Node.insert]
+      cases n with
+      | split r cs c0 c1 c2 c3 => exact route_congr _ _ _ it hn hagree
+      | leaf r cs =>
+        simp only
+        split
+        · rename_i hsplit
+          have hr' : r.empty = false := hr
+          obtain ⟨m0, m1, m2, m3⟩ := quadrants_meas r hr' hsplit.2
+          have hq : RectOps.quadrants r = quadrants halfInt r := rfl
+          have hacc : Good (Node.split r [] (Node.leaf (RectOps.quadrants r).1 []) (Node.leaf (RectOps.quadrants r).2.1 [])
+              (Node.leaf (RectOps.quadrants r).2.2.1 []) (Node.leaf (RectOps.quadrants r).2.2.2 [])) := by
+            rw [hq]
+            exact ⟨hr', ⟨trivial, fun _ => rfl, m0⟩, ⟨trivial, fun _ => rfl, m1⟩, ⟨trivial, fun _ => rfl, m2⟩,
+              ⟨trivial, fun _ => rfl, m3⟩⟩
+          have e := fold_route_congr _ _ (insert_good threshold f) cs _ hacc hr' hagree
+          rw [← e]
+          obtain ⟨q1, q2⟩ := fold_good (Node.route (Node.insert threshold f)) (route_good _ (insert_good threshold f)) cs _ hacc hr'
+          exact route_congr _ _ _ it q1 (by rw [q2]; exact hagree)
+        · exact route_congr _ _ _ it hn hagree
+
 end QT
